@@ -7,8 +7,8 @@ every literal come from `Gen/ShowJS.lean` (regenerated from the Go source on eve
 escape table of string bodies from `Gen/EscapeTables.lean`. Core Lean only.
 
 Parameters (not modelled, supplied with the value): `strconv.FormatFloat(f,'f',-1,bits)` (the
-`digits` of a float), `time.Time` formatting (the two strings of `.time`), `String()` /
-`toString` of map keys (keys arrive stringified), `reflect.StructTag.Get("json")`, the strings
+`digits` of a float), `time.Time.Format(time.RFC3339)` (re-implemented, tied), the strings
+`String()` returns for Stringer keys, `reflect.StructTag.Get("json")`, the strings
 returned by `JS()`/`JSON()`/`Error()` methods, the `%s` rendering of a type. -/
 namespace ScriggoV.ShowValue
 open ScriggoV ScriggoV.Gen.ShowJS
@@ -30,7 +30,44 @@ structure Field where
   tag : Bytes
   /-- `field.PkgPath == ""` -/
   exported : Bool
+  /-- `field.Anonymous`; the code never looks at it (an embedded struct is an ordinary field named
+  after its type), encoding/json does -/
+  embedded : Bool := false
   deriving Repr, DecidableEq
+
+/-- what the code reads of a `time.Time`: the calendar fields, the nanoseconds, and `tt.Zone()`
+(is the name `"UTC"`, seconds east of UTC) -/
+structure TimeRec where
+  year : Int
+  month : Nat
+  day : Nat
+  hour : Nat
+  min : Nat
+  sec : Nat
+  nsec : Nat
+  /-- `name == "UTC"` -/
+  utc : Bool
+  /-- seconds east of UTC -/
+  offset : Int
+  deriving Repr, DecidableEq
+
+/-- a map key as the key loop sees it: the `key.Interface().(type)` switch, then `toString` -/
+inductive GoKey
+  /-- implements `fmt.Stringer`: `String()` -/
+  | stringer (s : Bytes)
+  /-- implements `native.EnvStringer`: `String(env)` -/
+  | envStringer (s : Bytes)
+  | bool (b : Bool)
+  | int (k : RKind) (i : Int)
+  | uint (k : RKind) (n : Nat)
+  /-- `strconv.FormatFloat(f, 'f', -1, bits)` -/
+  | float (k : RKind) (digits : Bytes)
+  | str (s : Bytes)
+  /-- a complex key: what `toString` makes of it (not modelled) -/
+  | complex (k : RKind) (text : Bytes)
+  /-- any other key kind (arrays, structs, pointers, channels, interfaces …): `toString` fails -/
+  | other (k : RKind)
+  deriving Repr
 
 /-- a Go value as `showInJS`/`showInJSON`/`isEmptyValue` see it through reflect -/
 inductive GoVal
@@ -39,8 +76,7 @@ inductive GoVal
   /-- a value whose type is `native.JS`/`native.JSON` or implements the `JS…`/`JSON…Stringer`
   interfaces: the string it yields for JS, for JSON (`none`: not such a type), the value itself -/
   | verb (js json : Option Bytes) (inner : GoVal)
-  /-- `time.Time`: body of `new Date("…")` (showTimeInJS), `Format(time.RFC3339)` -/
-  | time (js json : Bytes)
+  | time (t : TimeRec)
   /-- a value implementing `error` (and none of the above): `Error()`, the value itself -/
   | err (msg : Bytes) (inner : GoVal)
   | bool (b : Bool)
@@ -54,8 +90,11 @@ inductive GoVal
   /-- any other slice -/
   | slice (isNil : Bool) (elems : List GoVal)
   | array (elems : List GoVal)
-  /-- keys already stringified, in iteration order; `keys.length = vals.length` -/
-  | map (isNil : Bool) (keys : List Bytes) (vals : List GoVal)
+  /-- a slice whose element type has kind uint8 but whose type is not `[]byte` (`type NB []byte`,
+  `[]U8`): the code shows it like any other slice, encoding/json as base64 -/
+  | nbytes (isNil : Bool) (b : Bytes)
+  /-- keys in iteration order; `keys.length = vals.length` -/
+  | map (isNil : Bool) (keys : List GoKey) (vals : List GoVal)
   /-- `fields.length = vals.length` -/
   | struct (fields : List Field) (vals : List GoVal)
   /-- `isUnsafe`: kind UnsafePointer; when `isNil` the pointee is ignored -/
@@ -71,7 +110,7 @@ inductive GoVal
 def kindOf : GoVal → RKind
   | .nil => .invalid
   | .verb _ _ inner => kindOf inner
-  | .time _ _ => .struct
+  | .time _ => .struct
   | .err _ inner => kindOf inner
   | .bool _ => .bool
   | .int k _ => k
@@ -80,6 +119,7 @@ def kindOf : GoVal → RKind
   | .str _ => .string
   | .bytes _ _ => .slice
   | .slice _ _ => .slice
+  | .nbytes _ _ => .slice
   | .array _ => .array
   | .map _ _ _ => .map
   | .struct _ _ => .struct
@@ -142,6 +182,101 @@ def base64 : Bytes → Bytes
     [b64Char (a.toNat / 4), b64Char (a.toNat % 4 * 16 + b.toNat / 16),
      b64Char (b.toNat % 16 * 4 + c.toNat / 64), b64Char (c.toNat % 64)] ++ base64 r
 
+/-! ### map keys -/
+
+/-- the key loop: `fmt.Stringer`, `native.EnvStringer`, else `toString(env, k)` through the
+regenerated `toStringBranch`; `error`: toString's "cannot show value of type" (returned, not a
+panic) -/
+def keyString : GoKey → Except Fault Bytes
+  | .stringer s => .ok s
+  | .envStringer s => .ok s
+  | .bool b => match toStringBranch .bool with
+    | .bool => .ok (if b then [0x74, 0x72, 0x75, 0x65] else [0x66, 0x61, 0x6C, 0x73, 0x65])
+    | _ => .error .other
+  | .int k i => match toStringBranch k with
+    | .int => .ok (fmtInt i)
+    | _ => .error .other
+  | .uint k n => match toStringBranch k with
+    | .uint => .ok (natDigits n)
+    | _ => .error .other
+  | .float k d => match toStringBranch k with
+    | .float32 => .ok d
+    | .float64 => .ok d
+    | _ => .error .other
+  | .str s => match toStringBranch .string with
+    | .string => .ok s
+    | _ => .error .other
+  | .complex k t => match toStringBranch k with
+    | .complex => .ok t
+    | _ => .error .other
+  | .other _ => .error .other
+
+def keyStrings : List GoKey → Except Fault (List Bytes)
+  | [] => .ok []
+  | k :: ks => do
+    let s ← keyString k
+    let r ← keyStrings ks
+    .ok (s :: r)
+
+/-! ### time.Time -/
+
+/-- exactly `w` decimal digits of `n` (the low ones) -/
+def padDigits : Nat → Nat → Bytes
+  | 0, _ => []
+  | w+1, n => padDigits w (n / 10) ++ [digitChar n]
+
+/-- `%0.Nd` of a non-negative number: at least `w` digits -/
+def minDigits (w n : Nat) : Bytes := if n < 10 ^ w then padDigits w n else natDigits n
+
+inductive FmtArg
+  | int (i : Int)
+  | chr (c : UInt8)
+
+/-- `fmt.Sprintf` for the verbs showTimeInJS uses; a verb without a fitting argument is not a Go
+state (`error`) -/
+def sprintf : List FmtSeg → List FmtArg → Except Fault Bytes
+  | [], [] => .ok []
+  | .lit b :: segs, args => do
+    let r ← sprintf segs args
+    .ok (b ++ r)
+  | .dec plus w :: segs, .int i :: args => do
+    let r ← sprintf segs args
+    let sign : Bytes := if i < 0 then [0x2D] else if plus then [0x2B] else []
+    .ok (sign ++ minDigits w i.natAbs ++ r)
+  | .chr :: segs, .chr c :: args => do
+    let r ← sprintf segs args
+    .ok (c :: r)
+  | _, _ => .error .other
+
+/-- `showTimeInJS(tt)`; `error`: the panic "not representable year in JavaScript" -/
+def showTimeInJS (t : TimeRec) : Except Fault Bytes :=
+  let y := t.year
+  if y < jsYearMin || y > jsYearMax then .error .other else
+  let ms : Int := (t.nsec / 1000000 : Nat)
+  let common : List FmtArg := [.int y, .int t.month, .int t.day, .int t.hour, .int t.min, .int t.sec, .int ms]
+  let expanded := y < jsYear4Min || y > jsYear4Max
+  if t.utc then
+    sprintf (if expanded then jsDateUTCExpanded else jsDateUTC) common
+  else
+    let zone := Int.tdiv t.offset 60
+    let sign : UInt8 := if zone < 0 then 0x2D else 0x2B
+    let zone := if zone < 0 then -zone else zone
+    sprintf (if expanded then jsDateZoneExpanded else jsDateZone)
+      (common ++ [.chr sign, .int (zone / 60), .int (zone % 60)])
+
+/-- `tt.Format(time.RFC3339)` (standard library, hand-modelled for years 0..9999; a parameter
+of the code, tied by the harness): `2006-01-02T15:04:05Z07:00` -/
+def fmtRFC3339 (t : TimeRec) : Bytes :=
+  let zone := Int.tdiv t.offset 60
+  let tz : Bytes :=
+    if t.offset == 0 then [0x5A]
+    else
+      let sign : UInt8 := if zone < 0 then 0x2D else 0x2B
+      let z := zone.natAbs
+      sign :: (minDigits 2 (z / 60) ++ [0x3A] ++ minDigits 2 (z % 60))
+  minDigits 4 t.year.natAbs ++ [0x2D] ++ minDigits 2 t.month ++ [0x2D] ++ minDigits 2 t.day ++ [0x54]
+    ++ minDigits 2 t.hour ++ [0x3A] ++ minDigits 2 t.min ++ [0x3A] ++ minDigits 2 t.sec ++ tz
+
 /-! ### struct tags -/
 
 /-- `strings.Index(s, ",")` -/
@@ -190,6 +325,7 @@ def isEmptyValue (v : GoVal) : Bool :=
   | .len, .str s => s.isEmpty
   | .len, .bytes _ b => b.isEmpty
   | .len, .slice _ es => es.isEmpty
+  | .len, .nbytes _ b => b.isEmpty
   | .len, .array es => es.isEmpty
   | .len, .map _ ks _ => ks.isEmpty
   | .nil, .iface w => match w with | .nil => true | _ => false
@@ -255,7 +391,9 @@ def showV (m : Mode) : GoVal → Except Fault Bytes
     match (if m.isJS then js else json) with
     | some raw => .ok raw
     | none => showV m inner
-  | .time js json => .ok (m.lits.timeOpen ++ (if m.isJS then js else json) ++ m.lits.timeClose)
+  | .time t =>
+    if m.isJS then showTimeInJS t
+    else .ok (m.lits.timeOpen ++ fmtRFC3339 t ++ m.lits.timeClose)
   | .err msg _ =>                    -- value = v.Error(); then the kind switch on a string
     match m.branch .string with
     | .string => .ok (quoted m.lits msg)
@@ -296,6 +434,17 @@ def showV (m : Mode) : GoVal → Except Fault Bytes
         let rs ← showList m es
         .ok (m.lits.arrOpen ++ joinElems m.lits.arrSep rs ++ m.lits.arrClose)
     | _ => .error .other
+  | .nbytes isNil b =>             -- not `[]byte` itself: the ordinary slice code, element by element
+    match m.branch .slice with
+    | .slice =>
+      if isNil then .ok m.lits.nilSlice
+      else if b.isEmpty then .ok m.lits.emptyArray
+      else
+        match m.branch .uint8 with
+        | .uint =>
+          .ok (m.lits.arrOpen ++ joinElems m.lits.arrSep (b.map (fun c => natDigits c.toNat)) ++ m.lits.arrClose)
+        | _ => .error .other
+    | _ => .error .other
   | .array es =>
     match m.branch .array with
     | .array =>
@@ -323,8 +472,9 @@ def showV (m : Mode) : GoVal → Except Fault Bytes
       if isNil then .ok m.lits.nilMap
       else if ks.length != vs.length then .error .other
       else do
+        let keys ← keyStrings ks
         let rs ← showList m vs
-        .ok (m.lits.mapOpen ++ joinMembers m.lits true (sortPairs (ks.zip rs)) ++ m.lits.mapClose)
+        .ok (m.lits.mapOpen ++ joinMembers m.lits true (sortPairs (keys.zip rs)) ++ m.lits.mapClose)
     | _ => .error .other
   | .other k name =>
     match m.branch k with
